@@ -78,6 +78,9 @@ type simNode struct {
 // newWorld opens a fresh in-memory bucket.  Must run on the scheduler goroutine.
 func newWorld(env *verifsim.Env) (*simWorld, error) {
 	name := fmt.Sprintf("simb%d", worldCounter.Add(1))
+	// rosmar's CAS clock is one process-global hybrid logical clock: reset it so a run does not
+	// inherit the high-water mark of earlier runs in this process (the bubble clock restarts).
+	rosmar.SetClockForTest(sgbucket.HLCWallClock)
 	b, err := rosmar.OpenBucket(rosmar.InMemoryURL, name, rosmar.CreateNew)
 	if err != nil {
 		return nil, err
